@@ -67,3 +67,37 @@ Example C14_example :
   b64url_enc [0; 255; 16; 254; 3] = s2l "AP8Q_gM" /\
   b64url_dec (s2l "AP8Q_gM=") = Ok [0; 255; 16; 254; 3].
 Proof. vm_compute. repeat split. Qed.
+
+(* ---- the anchor sites: `id` is compared with the ENCODING of rawId (round 11) ----
+   For every oracle behaviour, policy and response record: acceptance implies that `id` is the one
+   canonical text of rawId.  Together with the leniency theorems above this is a strict statement:
+   an `id` that merely DECODES to rawId (a '/' for a '_', an inserted blank, '=' padding) is refused
+   by both verifiers, whatever else the response carries. *)
+From PW Require Import Model.Oracles Model.CredJson Model.VerifyAuth Model.VerifyReg
+  Spec.AuthSpec Spec.RegSpec Proofs.AuthProofs Proofs.RegProofs.
+
+Theorem C14_accepted_id_is_canonical_auth : forall O P c r,
+  verify_auth_rec O P c = Ok r -> acr_id c = b64url_enc (acr_raw_id c).
+Proof. intros O P c r H. apply verify_auth_rec_sound in H. exact (aa_id _ _ _ _ H). Qed.
+Print Assumptions C14_accepted_id_is_canonical_auth.
+
+Theorem C14_accepted_id_is_canonical_reg : forall O P c r,
+  verify_reg_rec O P c = Ok r -> rcr_id c = b64url_enc (rcr_raw_id c).
+Proof. intros O P c r H. apply verify_reg_rec_sound in H. exact (ra_id _ _ _ _ H). Qed.
+Print Assumptions C14_accepted_id_is_canonical_reg.
+
+Theorem C14_decodable_but_not_canonical_id_refused : forall O P c,
+  b64url_dec (acr_id c) = Ok (acr_raw_id c) -> acr_id c <> b64url_enc (acr_raw_id c) ->
+  exists e, verify_auth_rec O P c = Err e.
+Proof.
+  intros O P c _ Hne. destruct (verify_auth_rec O P c) as [r|e] eqn:E; [|eauto].
+  exfalso. apply Hne. exact (C14_accepted_id_is_canonical_auth O P c r E).
+Qed.
+Print Assumptions C14_decodable_but_not_canonical_id_refused.
+
+(* the premises of the last theorem are met by real texts: a padded and a '/'-spelled id *)
+Example C14_noncanonical_ids_exist :
+  let raw := [0; 255; 16; 254; 3] in
+  b64url_dec (s2l "AP8Q_gM=") = Ok raw /\ s2l "AP8Q_gM=" <> b64url_enc raw /\
+  b64url_dec (s2l "AP8Q/gM") = Ok raw /\ s2l "AP8Q/gM" <> b64url_enc raw.
+Proof. vm_compute. repeat split; discriminate. Qed.
